@@ -10,10 +10,9 @@ import DarkluaModel.Rules.FnErase
 `should_merge` holds. The merged statement becomes the new "previous" one, so chains merge.
 
 `should_merge(first, next)`:
-* `false` when `first` has more variables than values and at least one value
-  (`local a, b = f()` — the last value may expand);
-* NOTHING is checked when `first` has MORE VALUES THAN VARIABLES (`local a = f(), g()`): the merge
-  then shifts the values of `next` to the right (defect F17, kept in the model);
+* `false` when `first` has at least one value and a number of values different from its number
+  of variables (`local a, b = f()` — the last value may expand; `local a = f(), g()` — the surplus
+  value would land on a variable of `next`: F17, fixed in /repo by `fix: group_local…`);
 * otherwise `FindVariables` (names of `first`) must not fire on any value of `next`
   (purely syntactic: shadowing inside the value still counts as a usage; types of `next` are
   not looked at).
@@ -26,7 +25,7 @@ open FindVariables
 
 /-- `should_merge`: `first` = (variables, values), values of `next` -/
 def shouldMerge (ns1 : List TName) (vs1 : List Expr) (vs2 : List Expr) : Bool :=
-  if ns1.length > vs1.length && vs1.length != 0 then false
+  if ns1.length != vs1.length && vs1.length != 0 then false
   else !(mEs (ns1.map TName.name) vs2)
 
 def nils (n : Nat) : List Expr := List.replicate n .nil
@@ -59,30 +58,20 @@ def processor : Processor Unit := { block := processBlock }
 /-- `flawless_process`: one `DefaultVisitor` pass -/
 def apply (b : Block) : Block := (Visitor.runDefault processor b ()).1
 
-/-- Hypothesis `H₁₆` of the partial theorem, per merge: `first` has no value or exactly as many
-values as variables (with more values the rule is wrong, with fewer it does not merge). -/
+/-- `H₁₆`: `first` has no value or exactly as many values as variables. Since the fix of F17 this is
+implied by `should_merge` (`shouldMerge_h16`): it is no longer a hypothesis on programs. -/
 def h16 (ns1 : List TName) (vs1 : List Expr) : Bool :=
   vs1.length == 0 || vs1.length == ns1.length
 
-/-- `H₁₆` along the loop of `filter_statements`: every merge that `go` performs has a `first`
-(the running, possibly already merged statement) satisfying `h16`. -/
-def goOk : Stmt → List Stmt → Bool
-  | _, [] => true
-  | .localAssign k1 ns1 vs1, .localAssign k2 ns2 vs2 :: rest =>
-    if shouldMerge ns1 vs1 vs2 then
-      let (ns, vs) := merge ns1 vs1 ns2 vs2
-      h16 ns1 vs1 && goOk (.localAssign k1 ns vs) rest
-    else goOk (.localAssign k2 ns2 vs2) rest
-  | _, cur :: rest => goOk cur rest
-
-def stmtsOk : List Stmt → Bool
-  | [] => true
-  | s :: rest => goOk s rest
-
-/-- `H₁₆` for a whole program: `stmtsOk` for the statement list of every block the visitor reaches -/
-def programOk (b : Block) : Bool :=
-  (Visitor.runDefault
-    ({ block := fun blk ok => match blk with | .mk stmts _ => (blk, ok && stmtsOk stmts) } : Processor Bool) b true).2
+theorem shouldMerge_h16 (ns1 : List TName) (vs1 vs2 : List Expr) (h : shouldMerge ns1 vs1 vs2 = true) :
+    h16 ns1 vs1 = true := by
+  unfold shouldMerge at h
+  unfold h16
+  by_cases h0 : vs1.length = 0
+  · simp [h0]
+  · by_cases h1 : ns1.length = vs1.length
+    · simp [h1]
+    · simp [h0, h1] at h
 
 /-! ### local soundness against `Shared/Sem.lean`
 
@@ -90,8 +79,8 @@ Two `local` statements evaluate `vs1`, bind `ns1` (fresh cells), evaluate `vs2` 
 environment and state, bind `ns2`. The merged statement evaluates `vs1 ++ vs2` in the OUTER
 environment and then binds everything. `merge_core` isolates what is needed for exact equality
 of the two (success path): (a) `vs1` truncated to one value each gives what `ns1` receives —
-true iff `first` has no value or as many values as variables (`h16`; otherwise F17,
-`processBlock_not_exact`); (b) evaluating `vs2` before or after `ns1` is bound gives the same
+true iff `first` has no value or as many values as variables (`h16`, guaranteed by `should_merge`
+since the fix of F17: `shouldMerge_h16`); (b) evaluating `vs2` before or after `ns1` is bound gives the same
 values and commutes with the binding (`hframe`/`hcomm`). (b) is where visibility lives: it
 fails when `vs2` reads or captures a variable of `ns1` — `should_merge` refuses those by
 `FindVariables` — and, for exact equality of STATES, also when `vs2` allocates cells or creates
@@ -331,40 +320,14 @@ theorem merge_exact_second_empty (env : Env N) (k1 k2 : LocalKind) (ns1 ns2 : Li
     (by rw [← hlen]; exact evalFirsts_of_evalEs call ρ k env vs1 σ σ1 ws1 h1)
     (by simp [evalEs]) (evalEs_nils call ρ k env _ σ1) rfl (padTake_replicate _)
 
-/-- F17: with more values than variables in the first statement the merge shifts values.
-`local a = nil, true` / `local b = false` / `return b` returns `false`; the rule's output
-`local a, b = nil, true, false` / `return b` returns `true`. -/
+/-- F17 (fixed): `local a = nil, true` / `local b = false` / `return b`. Before the fix the rule merged
+it into `local a, b = nil, true, false` (returning `true` instead of `false`); now it is left alone. -/
 def f17Witness : Block :=
   .mk [.localAssign .loc [.mk "a" none] [.nil, .true], .localAssign .loc [.mk "b" none] [.false]]
     (some (.ret [.var "b"]))
 
-theorem f17_rule_output :
-    (processBlock f17Witness ()).1 =
-      .mk [.localAssign .loc [.mk "a" none, .mk "b" none] [.nil, .true, .false]] (some (.ret [.var "b"])) := by
-  simp [processBlock, f17Witness, filterStatements, go, shouldMerge, merge, FindVariables.mEs, FindVariables.mE]
-
-theorem f17_original (σ : State N) :
-    execB call ρ k ⟨[], []⟩ f17Witness σ = .ok (.ret [.bool false]) { σ with cells := σ.cells ++ [.nil, .bool false] } := by
-  simp [f17Witness, execB, execSs, execS, evalEs, evalE, Res.bind, first, bindLocals, State.allocCell, TName.name,
-    execLast, lookupVar, lookupAssoc, State.getCell]
-
-theorem f17_merged (σ : State N) :
-    execB call ρ k ⟨[], []⟩ (processBlock f17Witness ()).1 σ
-      = .ok (.ret [.bool true]) { σ with cells := σ.cells ++ [.nil, .bool true] } := by
-  rw [f17_rule_output]
-  simp [execB, execSs, execS, evalEs, evalE, Res.bind, first, bindLocals, State.allocCell, TName.name,
-    execLast, lookupVar, lookupAssoc, State.getCell]
-
-/-- the block hook is NOT semantics preserving in general (F17) -/
-theorem processBlock_not_exact :
-    ¬ ∀ (N : NumOps) (call : CallFn N) (ρ : ExtOracle N) (k : Nat) (env : Env N) (b : Block) (σ : State N),
-        execB call ρ k env (processBlock b ()).1 σ = execB call ρ k env b σ := by
-  intro h
-  have := h unitOps (fun _ _ _ => .timeout) (fun _ _ _ => []) 0 ⟨[], []⟩ f17Witness
-    ⟨[], [], [], [], []⟩
-  rw [f17_original (N := unitOps) (fun _ _ _ => .timeout) (fun _ _ _ => []) 0,
-    f17_merged (N := unitOps) (fun _ _ _ => .timeout) (fun _ _ _ => []) 0] at this
-  simp at this
+theorem f17_rule_output : (processBlock f17Witness ()).1 = f17Witness := by
+  simp [processBlock, f17Witness, filterStatements, go, shouldMerge]
 
 end
 
